@@ -496,7 +496,8 @@ def judge_final(env: Env, acc: Acc, case, path, mode, fresh, before_counts, sig_
         acc.violation({"mech": "versions_not_recorded_exactly_once", **sig_base},
                       f"schema_migrations holds {got} but the {env.n} packaged files declare versions {declared}", case)
     if before_counts is not None:
-        lost = {t: (n, snap["counts"].get(t)) for t, n in before_counts.items() if snap["counts"].get(t) != n}
+        lost = {t: (n, snap["counts"].get(t)) for t, n in before_counts.items()
+                if t != "schema_migrations" and snap["counts"].get(t) != n}
         if lost:
             acc.note("rows_changed_by_migration")  # informational: the statement speaks about schema only
     # "running them again changes nothing"
@@ -599,18 +600,19 @@ def pending_at_start(env, state):
     return (k or 0) < env.n
 
 
-def fault_plans(tier, counts, rnd):
+def fault_plans(tier, counts, rnd, data=False):
     """Single-fault plans (strided in quick, complete in thorough) + sampled double faults (thorough)."""
     plans = []
     a, v, p = counts["count_auth"], counts["count_vm"], counts["count_py"]
     if tier == "quick":
-        deny_ks = sorted(set(range(0, a, 4)) | ({a - 1} if a else set()))
-        crash_ks = sorted(set(range(2, a, 4)))
+        st = 12 if data else 6  # populated variants get a sparser stride in the quick tier
+        deny_ks = sorted(set(range(0, a, st)) | ({a - 1} if a else set()))
+        crash_ks = sorted(set(range(st // 2, a, st)))
         # process creation is slow in the sandbox (0.1-0.5 s per fork): two true kills per starting schema here,
         # the in-process crash emulations (crash_auth / crash_py) cover every other point
         kill_ks = [a // 2] if a else []
         pyk_ks = [p // 2] if p else []
-        vm_ks = sorted(set(range(0, v, max(1, v // 12)))) if v else []
+        vm_ks = sorted(set(range(0, v, max(1, v // 8)))) if v else []
     else:
         deny_ks = list(range(a))
         crash_ks = list(range(a))
@@ -668,7 +670,7 @@ def run_shard(shard):
             counts = count_points(env, tmpl, mode)
             acc.note("fault_points_authorizer", counts["count_auth"])
             acc.note("fault_points_py_calls", counts["count_py"])
-            for plan_ in fault_plans(tier, counts, rnd):
+            for plan_ in fault_plans(tier, counts, rnd, data):
                 case = {**base, "faults": plan_}
                 acc.case()
                 acc.sig(h(case))
